@@ -50,7 +50,7 @@ Proof.
     repeat match goal with X : _ && _ = true |- _ => apply andb_true_iff in X as [? ?] end.
   - eexists; reflexivity.
   - eexists; reflexivity.
-  - destruct (IH e H) as [s ->]. destruct e; try (eexists; reflexivity). destruct numeric; eexists; reflexivity.
+  - destruct (IH e H) as [s ->]. destruct e; try (eexists; reflexivity). destruct kind as [|[?|?|]]; eexists; reflexivity.
   - destruct (IH e) as [s ->]; [assumption|]. destruct (Hl args) as [xs ->]; [assumption|].
     match goal with |- exists _, match ?X with _ => _ end = _ => destruct (seq_opt_all
       (fun ka : option str * pexpr => match fst ka, print f (snd ka) with Some k, Some v => Some (k ++ [61] ++ v) | None, Some v => Some ([42; 42] ++ v) | _, None => None end)
@@ -136,6 +136,7 @@ Example repaired_printer_cases :
   print_expr (PCall (PName (s2l "f")) [] [(None, PName (s2l "d"))]) = Some (s2l "f(**d)") /\
   print_expr (PDict [(None, PName (s2l "d"))]) = Some (s2l "{**d}") /\
   print_expr (PLambda [s2l "x"] [] None [s2l "k"] None (PName (s2l "k"))) = Some (s2l "lambda x, *, k: k") /\
-  print_expr (PAttr (PConst (s2l "1") true) (s2l "real")) = Some (s2l "(1).real") /\
+  print_expr (PAttr (PConst (s2l "1") 1) (s2l "real")) = Some (s2l "(1).real") /\
+  print_expr (PConst (s2l "inf") 1) = Some (s2l "1e309") /\ print_expr (PConst (s2l "'inf'") 0) = Some (s2l "'inf'") /\
   print_expr (PSub (PName (s2l "x")) (PTuple [PSlice (Some (PName (s2l "a"))) None None; PName (s2l "b")])) = Some (s2l "x[a:, b]").
 Proof. vm_compute. repeat split. Qed.
